@@ -383,9 +383,35 @@ def option_sweep(ctx, part, d, rng, codegen, mods):
                 files = sorted(os.listdir(dd)) if os.path.isdir(dd) else []
                 ctx.check("generation_succeeds_for_option_combination", "cyecca.models.%s" % mname, bool(ok) and any(f.endswith((".c", ".cpp")) for f in files), {"options": "%s=%d" % (k, o[k]), "files": files})
                 shutil.rmtree(dd, ignore_errors=True)
+        # ... and every pair of toggles (thorough: every combination): an option pair can fail where each alone works
+        for mname, mod in mods.items():
+            mf = module_functions(mod)
+            sel = {k: v for k, v in list(mf.items())[:1]}
+            if ctx.quick:
+                combos = [dict([(a, not BASE_OPTS[a]), (b, not BASE_OPTS[b])]) for i, a in enumerate(keys) for b in keys[i + 1:]]
+            else:
+                combos = [dict(zip(keys, bits)) for bits in itertools.product([False, True], repeat=len(keys))]
+            for ci, o in enumerate(combos):
+                dd = os.path.join(d, "p_%s_%d" % (mname, ci))
+                with quiet():
+                    ok = lib_call(ctx, "generate_code", "cyecca.models.%s" % mname, lambda: (mod.generate_code(sel, filename="x.c", dest_dir=dd, **o), True)[1], not_implemented_ok=False)
+                files = sorted(os.listdir(dd)) if os.path.isdir(dd) else []
+                label = ",".join("%s=%d" % (k, v) for k, v in o.items() if v != BASE_OPTS[k])
+                ctx.check("generation_succeeds_for_option_combination", "cyecca.models.%s" % mname, bool(ok) and any(f.endswith((".c", ".cpp")) for f in files), {"options": label, "files": files})
+                shutil.rmtree(dd, ignore_errors=True)
         with quiet():
             from cyecca.estimate.attitude import algorithms
             eqs = algorithms.eqs()
+        akeys = ["main", "mex", "with_header", "with_mem"]
+        adef = {"main": False, "mex": False, "with_header": True, "with_mem": True}
+        for bits in itertools.product([False, True], repeat=4):
+            o = dict(zip(akeys, bits))
+            dd = os.path.join(d, "ap_%s" % "".join(str(int(b)) for b in bits))
+            with quiet():
+                ok = lib_call(ctx, "generate_code", "algorithms", lambda: (algorithms.generate_code({"sim": eqs["sim"]}, dd, **o), True)[1], not_implemented_ok=False)
+            files = sorted(os.listdir(dd)) if os.path.isdir(dd) else []
+            ctx.check("generation_succeeds_for_option_combination", "algorithms", bool(ok) and any(f.endswith(".c") for f in files), {"options": ",".join("%s=%d" % (k, v) for k, v in o.items() if v != adef[k]), "files": files})
+            shutil.rmtree(dd, ignore_errors=True)
         for k, dflt in (("main", False), ("mex", False), ("with_header", True), ("with_mem", True)):
             dd = os.path.join(d, "a_%s" % k)
             with quiet():
